@@ -573,3 +573,104 @@ def judge_builder(case, res):
     if r.get("immutable") != 1:
         return "an earlier snapshot changed: %s" % r.get("diff")
     return None
+
+
+# ------------------------------------------------------------------ AwkwardForth programs (Forth.tla)
+def forth_src(p):
+    out = []
+    for h in p:
+        k = h["k"]
+        if k == "lit":
+            out.append(str(h["x"]))
+        elif k == "w":
+            out.append(h["w"])
+        elif k == "if":
+            out.append("if " + forth_src(h["a"]) + (" else " + forth_src(h["b"]) if h["el"] else "") + " then")
+        elif k == "do":
+            out.append("do " + forth_src(h["body"]) + (" +loop" if h["st"] else " loop"))
+        elif k == "until":
+            out.append("begin " + forth_src(h["body"]) + " until")
+        elif k == "while":
+            out.append("begin " + forth_src(h["c"]) + " while " + forth_src(h["body"]) + " repeat")
+        elif k == "get":
+            out.append("x @")
+        elif k == "put":
+            out.append("x !")
+        elif k == "inc":
+            out.append("x +!")
+        elif k == "call":
+            out.append("f")
+        elif k == "read":
+            out.append("data %s-> stack" % h["ty"])
+        elif k == "in":
+            out.append("data " + h["w"])
+        elif k == "write":
+            out.append("y <- stack")
+        elif k == "writeadd":
+            out.append("y +<- stack")
+        elif k == "outlen":
+            out.append("y len")
+        else:
+            raise ValueError("forth instr " + repr(h))
+    return " ".join(out)
+
+
+def forth_program(case, main=None):
+    src = "input data output y int32 variable x "
+    if case["def"] or '"call"' in json.dumps(case["main"]):
+        src += ": f " + forth_src(case["def"]) + " ; "
+    return src + forth_src(case["main"] if main is None else main)
+
+
+def steps_forth(case, pick):
+    base = {"op": "forth_run", "stack_max": case["stackmax"], "recursion_max": case["recmax"],
+            "inputs": {"data": case["input"]}}
+    src = forth_program(case)
+    main = case["main"]
+    k = pick(list(range(len(main) + 1)))
+    paused = forth_program(case, main[:k] + [{"k": "w", "w": "pause"}] + main[k:])
+    bits = pick([32, 64])
+    steps = [dict(base, source=src, bits=bits, schedule=["run"], rerun_decompiled=1),
+             dict(base, source=src, bits=96 - bits, schedule=["stepall"], out_initial=1, out_resize_num=11, out_resize_den=10),
+             dict(base, source=paused, bits=bits, schedule=["runall"], out_initial=2)]
+    return steps
+
+
+def _forth_final(r):
+    if r.get("ok") != 1:
+        return None, "compile/run failed: %s" % (r.get("msg") or r.get("harness"))
+    st = r["steps"][-1]
+    if "exc" in st or "harness" in st:
+        return None, "raised %s: %s" % (st.get("exc"), st.get("msg") or st.get("harness"))
+    return st, None
+
+
+def judge_forth(case, res):
+    if not res:
+        return "no result"
+    exp = case["exp"]
+    names = ["run", "begin+step*", "pause+resume*", "decompiled"]
+    res = list(res)
+    if res and res[0].get("ok") == 1 and "dec" in res[0]:
+        d = res[0]["dec"]
+        res.append({"ok": 1, "steps": [d]} if "err" in d else {"ok": 0, "msg": d.get("msg"), "phase": "compile", "exc": "ValueError"})
+    for name, r in zip(names, res):
+        if exp["err"] == "compile_error":
+            if r.get("ok") == 0 and r.get("phase") == "compile" and r.get("exc") == "ValueError":
+                continue
+            return "%s: ill-formed program was accepted by the compiler" % name
+        st, why = _forth_final(r)
+        if why:
+            return "%s: %s" % (name, why)
+        if st["err"] != exp["err"]:
+            return "%s: error status %s, documented semantics %s" % (name, st["err"], exp["err"])
+        if exp["err"] == "none":
+            if st["stack"] != exp["st"]:
+                return "%s: stack %s, expected %s" % (name, st["stack"], exp["st"])
+            if st["vars"].get("x") != exp["x"]:
+                return "%s: variable x %s, expected %s" % (name, st["vars"].get("x"), exp["x"])
+            if json.loads(st["outs"].get("y", "[]")) != exp["out"]:
+                return "%s: output %s, expected %s" % (name, st["outs"].get("y"), exp["out"])
+            if st["inpos"].get("data") != exp["pos"]:
+                return "%s: input position %s, expected %s" % (name, st["inpos"].get("data"), exp["pos"])
+    return None
